@@ -284,47 +284,64 @@ def _has_interesting(expr: ast.AST) -> bool:
     return False
 
 
-class _Subst(ast.NodeTransformer):
-    def __init__(self, env: dict[str, ast.expr]):
-        self.env = env
-        self.bound: list[set[str]] = []
+def rewrite(node, fn):
+    """Persistent bottom-up rewrite: returns `node` itself when nothing changes; never mutates its input (terms are shared)."""
+    if isinstance(node, list):
+        out = [rewrite(x, fn) for x in node]
+        return out if any(a is not b for a, b in zip(out, node)) else node
+    if not isinstance(node, ast.AST):
+        return node
+    changed = None
+    for name, val in ast.iter_fields(node):
+        if isinstance(val, (ast.AST, list)):
+            nv = rewrite(val, fn)
+            if nv is not val:
+                if changed is None:
+                    changed = copy.copy(node)
+                setattr(changed, name, nv)
+    cur = changed if changed is not None else node
+    r = fn(cur)
+    return cur if r is None else r
 
-    def visit_Name(self, n: ast.Name):
-        if isinstance(n.ctx, ast.Load) and n.id in self.env and not any(n.id in b for b in self.bound):
-            t = self.env[n.id]
+
+def _subst(node, env: dict, bound: tuple = ()):
+    """Persistent substitution of reaching definitions (names and self-attribute chains)."""
+    if isinstance(node, list):
+        out = [_subst(x, env, bound) for x in node]
+        return out if any(a is not b for a, b in zip(out, node)) else node
+    if not isinstance(node, ast.AST):
+        return node
+    if isinstance(node, ast.Name):
+        if isinstance(node.ctx, ast.Load) and node.id in env and node.id not in bound:
+            t = env[node.id]
             if isinstance(t, ast.FunctionDef):
-                return n
+                return node
             if isinstance(t, (ast.List, ast.Dict, ast.Set, ast.ListComp, ast.DictComp, ast.SetComp)):
-                return n  # mutable container: identity matters, keep the variable
-            return copy.deepcopy(t)
-        return n
-
-    def visit_Attribute(self, n: ast.Attribute):
-        if isinstance(n.ctx, ast.Load):
-            d = dotted(n)
-            if d and d in self.env and not isinstance(self.env[d], ast.FunctionDef):
-                return copy.deepcopy(self.env[d])
-        return self.generic_visit(n)
-
-    def _comp(self, n):
-        b = set()
-        for g in n.generators:
+                return node  # mutable container: identity matters, keep the variable
+            return t
+        return node
+    if isinstance(node, ast.Attribute) and isinstance(node.ctx, ast.Load):
+        d = dotted(node)
+        if d and d in env and not isinstance(env[d], ast.FunctionDef):
+            return env[d]
+    if isinstance(node, (ast.ListComp, ast.SetComp, ast.DictComp, ast.GeneratorExp)):
+        b = set(bound)
+        for g in node.generators:
             for x in ast.walk(g.target):
                 if isinstance(x, ast.Name):
                     b.add(x.id)
-        self.bound.append(b)
-        r = self.generic_visit(n)
-        self.bound.pop()
-        return r
-
-    visit_ListComp = visit_SetComp = visit_DictComp = visit_GeneratorExp = _comp
-
-    def visit_Lambda(self, n: ast.Lambda):
-        b = {a.arg for a in n.args.args + n.args.kwonlyargs}
-        self.bound.append(b)
-        r = self.generic_visit(n)
-        self.bound.pop()
-        return r
+        bound = tuple(b)
+    elif isinstance(node, ast.Lambda):
+        bound = tuple(set(bound) | {a.arg for a in node.args.args + node.args.kwonlyargs})
+    changed = None
+    for name, val in ast.iter_fields(node):
+        if isinstance(val, (ast.AST, list)):
+            nv = _subst(val, env, bound)
+            if nv is not val:
+                if changed is None:
+                    changed = copy.copy(node)
+                setattr(changed, name, nv)
+    return changed if changed is not None else node
 
 
 def render(node: ast.AST) -> str:
@@ -509,7 +526,7 @@ class Enumerator:
                             continue
                         c, k = parts
                         text = f"{render(c)}[{render(k)}]"
-                        self.emit(st2, "del", text, s, container=render(c), key=render(k))
+                        self.emit(st2, "del", text, s, container=render(c), key=render(k), key_term=k)
                         for kind in self.cfg.raises("del", text, s, st2):
                             st3 = st2.fork()
                             self.emit(st3, "raised", kind, s, at=text)
@@ -762,7 +779,7 @@ class Enumerator:
                     out.append((st2, exc))
                     continue
                 c, k = parts
-                self.emit(st2, "setitem", f"{render(c)}[{render(k)}] = {render(term)}", stmt, container=render(c), key=render(k), value=render(term), term=term)
+                self.emit(st2, "setitem", f"{render(c)}[{render(k)}] = {render(term)}", stmt, container=render(c), key=render(k), value=render(term), term=term, key_term=k)
                 out.append((st2, None))
             return out
         if isinstance(tgt, ast.Starred):
@@ -771,7 +788,7 @@ class Enumerator:
 
     # ---------------------------------------------------------------- expressions
     def subst(self, e: ast.expr, st: St) -> ast.expr:
-        return _Subst(st.env).visit(copy.deepcopy(e))
+        return _subst(e, st.env)
 
     def ev_seq(self, exprs: list[ast.expr], st: St):
         res: list[tuple[St, list, str | None]] = [(st, [], None)]
@@ -894,7 +911,7 @@ class Enumerator:
             t = ast.Subscript(c, k, ast.Load())
             if isinstance(e.ctx, ast.Load) and self.cfg.record_subscripts and not isinstance(k, ast.Slice):
                 text = render(t)
-                self.emit(st2, "subscript", text, e, container=render(c), key=render(k))
+                self.emit(st2, "subscript", text, e, container=render(c), key=render(k), key_term=k)
                 for kind in self.cfg.raises("subscript", text, e, st2):
                     s3 = st2.fork()
                     self.emit(s3, "raised", kind, e, at=text)
